@@ -28,6 +28,7 @@ type Solver struct {
 	log     *os.File
 	timeoutMs int
 	dead    bool
+	stack   []*Term
 }
 
 func solverArgs(name string, timeoutMs int) (string, []string) {
@@ -136,26 +137,52 @@ const (
 
 func (r Result) String() string { return [...]string{"unsat", "sat", "unknown"}[r] }
 
-// Check decides satisfiability of the conjunction of lits. If wantModel and sat, values of vars are returned.
-func (s *Solver) Check(lits []*Term, wantModel []*Term) (Result, map[string]string) {
+// Check decides satisfiability of pc ∧ extra. The solver-side assertion stack mirrors pc (one push
+// level per literal) so that consecutive queries along one path, and sibling paths sharing a prefix,
+// reuse the solver state; new definitions and global axioms are only ever emitted at level 0.
+func (s *Solver) Check(pc []*Term, wantModel []*Term, extra ...*Term) (Result, map[string]string) {
 	if s.dead {
 		return Unknown, nil
 	}
-	var sb strings.Builder
-	for _, l := range lits {
-		s.ctx.emit(l, &sb)
+	var defs strings.Builder
+	for _, l := range pc {
+		s.ctx.emit(l, &defs)
+	}
+	for _, l := range extra {
+		s.ctx.emit(l, &defs)
 	}
 	for _, v := range wantModel {
-		s.ctx.emit(v, &sb)
+		s.ctx.emit(v, &defs)
 	}
-	s.ctx.flAxioms(&sb)
+	s.ctx.flAxioms(&defs)
 	for _, a := range s.ctx.axioms {
-		sb.WriteString(a)
-		sb.WriteByte('\n')
+		defs.WriteString(a)
+		defs.WriteByte('\n')
 	}
 	s.ctx.axioms = s.ctx.axioms[:0]
+	var sb strings.Builder
+	if defs.Len() > 0 {
+		if len(s.stack) > 0 {
+			fmt.Fprintf(&sb, "(pop %d)\n", len(s.stack))
+			s.stack = s.stack[:0]
+		}
+		sb.WriteString(defs.String())
+	}
+	// synchronise the stack with pc
+	k := 0
+	for k < len(s.stack) && k < len(pc) && s.stack[k] == pc[k] {
+		k++
+	}
+	if k < len(s.stack) {
+		fmt.Fprintf(&sb, "(pop %d)\n", len(s.stack)-k)
+		s.stack = s.stack[:k]
+	}
+	for _, l := range pc[k:] {
+		fmt.Fprintf(&sb, "(push 1)\n(assert %s)\n", l.name)
+		s.stack = append(s.stack, l)
+	}
 	sb.WriteString("(push 1)\n")
-	for _, l := range lits {
+	for _, l := range extra {
 		if l.isCon && l.bval {
 			continue
 		}
